@@ -22,6 +22,7 @@ RULE = ("Hypothesis rule-based state machine over Node.store (cleared at the sta
         "distinct.  Non-trivial: a history with a discarding operation (delete, replace with deletion, prune that removes, "
         "expand) performed while unrelated entries exist; distinct operation-kind sequences by hash.")
 RULE += ('  prune is called on any registered tree (also one whose root is an unknown element) and on inner nodes.')
+RULE += ('  replace_child with deletion is also called on a node that does not list the old child: it must raise and discard nothing.')
 ASSUMPTIONS = [
     "ids are never deliberately reused (imported JSON gets fresh ids)",
     "recursive deletion, replace-with-deletion, prune and expand are applied only to subtrees whose nodes are all "
